@@ -117,6 +117,7 @@ func checkC15(c *Ctx) {
 	c.stageMapOrder(usable, keys)
 	c.stageKnownMapOrder(usable, keys)
 	c.stageHistories(usable, keys)
+	c.stageRecovery(usable, keys)
 	c.stageInterleave(usable, keys)
 	c.stageRace(usable, keys)
 }
@@ -777,6 +778,60 @@ func copyBoolMap(m map[int]bool) map[int]bool {
 		out[k] = v
 	}
 	return out
+}
+
+// ---- recovery: resources fetched at Write time (attachments) fail transiently during
+// the first Write; once the fault has passed, a second Write of the same Document must be
+// the fault-free Write (bounded liveness: served again as soon as faults stop)
+func (c *Ctx) stageRecovery(refs map[refKey]*Ref, keys []refKey) {
+	var specs []*Spec
+	var ks []refKey
+	for _, k := range keys {
+		ref := refs[k]
+		var att []string
+		for _, fn := range ref.Sc.FileNames() {
+			if ref.Sc.Files[fn].Kind == "attachment" {
+				att = append(att, fn)
+			}
+		}
+		if len(att) == 0 || ref.Cfg.Engine != "pango" {
+			continue
+		}
+		for _, nfail := range []int{1, 2} {
+			sp := cloneSpec(ref.Spec)
+			sp.ID = fmt.Sprintf("recovery/%s/%s/%d", k.Scenario, k.Cfg, nfail)
+			for _, fn := range att {
+				sp.Faults = append(sp.Faults, Fault{At: "url:" + fn, Kind: "transient", N: nfail})
+			}
+			// enough writes for every transient failure to be consumed, then one more
+			n := 1 + nfail
+			for w := 0; w < n; w++ {
+				sp.Tasks[0] = append(sp.Tasks[0], Op{Op: "write", ID: fmt.Sprintf("tr%d", w), Doc: "d", Zoom: ref.Cfg.Zoom})
+			}
+			specs = append(specs, sp)
+			ks = append(ks, k)
+		}
+	}
+	if len(specs) == 0 {
+		return
+	}
+	results := c.runBatch(specs)
+	nBad := 0
+	for i, r := range results {
+		c.Ev.Distinct(specs[i].ID)
+		ref := refs[ks[i]]
+		last := specs[i].Tasks[0][len(specs[i].Tasks[0])-1].ID
+		if outcomeSig(r.op(last)) == outcomeSig(ref.Write) {
+			continue
+		}
+		nBad++
+		d := c.firstTraceDiff(ref.Spec, specs[i], 0, 0, "t", last)
+		c.Findings = append(c.Findings, &Finding{Class: "recovery", Scenario: ks[i].Scenario, Where: callKind(d),
+			Oracle: "after the transient fetch failures have passed, a further Write of the same Document equals the fault-free Write",
+			Detail: fmt.Sprintf("faults=%v: %s", specs[i].Faults, d), Spec: specs[i], Spec2: ref.Spec, Expect: "op " + last + " trace-differs-from-spec2"})
+	}
+	c.Ev.Probes["recovery_runs"] = len(specs)
+	c.Logf("stage recovery: %d runs, %d not recovered", len(specs), nBad)
 }
 
 // ---- 7.4 interleavings of concurrent renders (token scheduler)
